@@ -62,33 +62,7 @@ func runC09(c *Ctx) {
 
 	ruleAuthAllowedDef(c)
 
-	R.Rule("R-auth-once", "E3+E2", "didAuth becomes true only after the mechanism reported completion with a nil error and after the 235 reply; it is cleared only by the TLS upgrade", 3)
-	for _, site := range c.Sites("st:Conn.didAuth=true") {
-		c.obHolds("didAuth=true", site, `invoke:Server.Next#1 == true`)
-		c.obHolds("didAuth=true", site, `invoke:Server.Next#2 == nil`)
-	}
-	for _, site := range c.Sites("st:Conn.didAuth=true") {
-		c.obAccompanied("didAuth only with 235", site.Parent(), func(in ssa.Instruction) bool { return in == site }, []string{"reply:235"}, "didAuth set on a path that does not send 235")
-	}
-	if f := c.A.Func("(*Conn).handleAuth"); f != nil {
-		// ... and every success is recorded: otherwise a second AUTH is not answered 503
-		c.obAccompanied("235 records the authentication", f, c.direct("reply:235"), []string{"st:Conn.didAuth=true"}, "a successful AUTH does not set didAuth: AUTH can succeed again in the same session")
-	}
-	for _, site := range c.Sites("reply:235") {
-		c.obHolds("reply 235", site, `invoke:Server.Next#1 == true`)
-		c.obHolds("reply 235", site, `invoke:Server.Next#2 == nil`)
-	}
-	for _, site := range c.Sites("st:Conn.didAuth") {
-		_, _, v := storedField(site)
-		b, isC := constBool(v)
-		switch {
-		case !isC:
-			R.Ob(c.siteKey(site, "didAuth=<non-constant>"), c.P.InstrPos(site), false, "didAuth assigned a computed value")
-		case !b:
-			seen := s.SeenBefore(site)
-			R.Ob(c.siteKey(site, "didAuth cleared only by TLS upgrade"), c.P.InstrPos(site), seen["st:Conn.conn"], "authentication state is cleared outside the STARTTLS upgrade: AUTH could succeed twice in one session")
-		}
-	}
+	ruleAuthOnce(c)
 
 	ruleTLSSuccessEffects(c)
 
@@ -486,4 +460,38 @@ func ruleAuthReadFailureEnds(c *Ctx) {
 			append(append([]string{}, lineReads...), "cb:sasl.Server.Next", "reply:334", "st:Conn.didAuth=true"), describe(in.(ssa.Value))+"#1 != nil")
 	})
 	R.Ob("(*Conn).handleAuth/reads continuation lines", c.P.Pos(f.Pos()), n >= 1, fmt.Sprintf("%d reads", n))
+}
+
+// ruleAuthOnce (C09; shared with C12: the AUTH line of the EHLO reply is conditional on didAuth, so an unsuccessful
+// AUTH that sets it makes a later EHLO omit an extension the configuration still makes available).
+func ruleAuthOnce(c *Ctx) {
+	R := c.R
+	_, s := c.Std()
+	R.Rule("R-auth-once", "E3+E2", "didAuth becomes true only after the mechanism reported completion with a nil error and after the 235 reply; it is cleared only by the TLS upgrade", 3)
+	for _, site := range c.Sites("st:Conn.didAuth=true") {
+		c.obHolds("didAuth=true", site, `invoke:Server.Next#1 == true`)
+		c.obHolds("didAuth=true", site, `invoke:Server.Next#2 == nil`)
+	}
+	for _, site := range c.Sites("st:Conn.didAuth=true") {
+		c.obAccompanied("didAuth only with 235", site.Parent(), func(in ssa.Instruction) bool { return in == site }, []string{"reply:235"}, "didAuth set on a path that does not send 235")
+	}
+	if f := c.A.Func("(*Conn).handleAuth"); f != nil {
+		// ... and every success is recorded: otherwise a second AUTH is not answered 503
+		c.obAccompanied("235 records the authentication", f, c.direct("reply:235"), []string{"st:Conn.didAuth=true"}, "a successful AUTH does not set didAuth: AUTH can succeed again in the same session")
+	}
+	for _, site := range c.Sites("reply:235") {
+		c.obHolds("reply 235", site, `invoke:Server.Next#1 == true`)
+		c.obHolds("reply 235", site, `invoke:Server.Next#2 == nil`)
+	}
+	for _, site := range c.Sites("st:Conn.didAuth") {
+		_, _, v := storedField(site)
+		b, isC := constBool(v)
+		switch {
+		case !isC:
+			R.Ob(c.siteKey(site, "didAuth=<non-constant>"), c.P.InstrPos(site), false, "didAuth assigned a computed value")
+		case !b:
+			seen := s.SeenBefore(site)
+			R.Ob(c.siteKey(site, "didAuth cleared only by TLS upgrade"), c.P.InstrPos(site), seen["st:Conn.conn"], "authentication state is cleared outside the STARTTLS upgrade: AUTH could succeed twice in one session")
+		}
+	}
 }
